@@ -4,6 +4,7 @@ from ..runner import Case
 from .. import gen, core
 
 ID = "C01"
+STATEFUL = True     # some blocks keep a live object across lines
 LEAN_TARGETS = ["Cider.Props.C01", "Cider.Props.C02Tie"]
 OPTIONAL_TARGETS = ["Cider.Props.C01Gen", "Cider.Props.C01Src"]
 OPTIONAL_THEOREMS = {"Cider.Props.C01Src": ['Cider.C01Src.kappaDecision_eq', 'Cider.C01Src.sigmaDecision_eq']}
@@ -26,6 +27,9 @@ def block(s):
 
 
 def cases(rng, tier):
+    # the property's own queries AFTER other public calls on the same object (same answers as on a fresh one)
+    for c in gen.after_calls_cases(rng, 16 if tier == "quick" else 120, ['kappa', 'dmax', 'delta']):
+        yield c
     n = 7 if tier == "quick" else 9
     for pat in gen.patterns_upto(n):
         yield Case(block(gen.spell(pat, rng, plain=(rng.random() < 0.5))), {"kind": "exhaustive"}, nontrivial=len(pat) >= 6 and pat.count('0') < len(pat))
@@ -65,6 +69,9 @@ def _ratio(specs):
 
 
 def judge(case, reals, gens, specs):
+    if case.tags.get("kind") == "after-other-calls":
+        from ..runner import default_judge
+        return default_judge(None, case, reals, gens, specs)
     out = []
     r, g, s = reals[0], gens[0], specs[0]
     for i in (1, 2):
